@@ -32,7 +32,7 @@ def setup():
     from . import engine
     hs = {}
     for prop in MODEL_PROPS:
-        for machines, kw, nq, nt, cfgs in checks.PROFILES[prop]:
+        for machines, kw, nq, nt, cfgs in checks.PROFILES[prop] + checks.gen_profiles(prop, 'quick', 1):
             for m in machines:
                 key = (m, tuple(cfgs) if cfgs else None)
                 if key not in hs:
